@@ -86,7 +86,7 @@ def write_results():
         if os.path.exists(notes):
             txt = re.sub(r"\s+", " ", open(notes).read())
             first = txt[:160]
-        rnd = {"m": "1", "r2m": "2", "r3m": "3", "r4m": "4"}.get(re.sub(r"[0-9]+$", "", sid.split("-", 1)[1]), "?")
+        rnd = {"m": "1", "r2m": "2", "r3m": "3", "r4m": "4", "r5m": "5", "r6m": "6", "r7m": "7"}.get(re.sub(r"[0-9]+$", "", sid.split("-", 1)[1]), "?")
         if m.get("obsolete"):
             res = "superseded: " + m["obsolete"]
         elif m.get("out_of_domain"):
